@@ -173,7 +173,7 @@ theorem encode_valid {p : Bytes} {r : Nat} (h : ValidEnc p r) : encodeRune r = p
     have e6 : 0x80 + r / 4096 % 64 = b1.toNat := by omega
     have e7 : 0x80 + r / 64 % 64 = b2.toNat := by omega
     have e8 : 0x80 + r % 64 = b3.toNat := by omega
-    simp only [encodeRune, e1, e2, e3, e4, if_true, if_false, e5, e6, e7, e8, ofNat_toNat]
+    simp only [encodeRune, e1, e2, e3, e4, if_false, e5, e6, e7, e8, ofNat_toNat]
 
 theorem valid_le_maxRune {p : Bytes} {r : Nat} (h : ValidEnc p r) : r ≤ maxRune := by
   unfold maxRune
@@ -194,7 +194,7 @@ theorem valid_ascii {p : Bytes} {r : Nat} (h : ValidEnc p r) (hr : r < 0x80) :
     ∃ b : UInt8, p = [b] ∧ b.toNat = r := by
   refine h.cases ?_ ?_ ?_ ?_
   · intro b0 hp h1 er; subst hp
-    exact ⟨b0, rfl, rfl⟩
+    exact ⟨b0, rfl, er.symm⟩
   · intro b0 b1 hp h1 h2 h3 h4 er; subst hp
     omega
   · intro b0 b1 b2 hp h1 h2 h3 h4 h5 h6 er; subst hp
@@ -221,5 +221,465 @@ theorem valid_high {p : Bytes} {r : Nat} (h : ValidEnc p r) (hr : 0x80 ≤ r) :
 
 theorem valid_ne_nil {p : Bytes} {r : Nat} (h : ValidEnc p r) : p ≠ [] := by
   refine h.cases ?_ ?_ ?_ ?_ <;> (intros; subst_vars; simp)
+
+/-! ## The decode loop -/
+
+theorem decode_size (s0 : UInt8) (rest : Bytes) :
+    1 ≤ (decodeRune (s0 :: rest)).2 ∧ (decodeRune (s0 :: rest)).2 ≤ rest.length + 1 := by
+  rcases decode_cases s0 rest with ⟨h, _⟩ | ⟨p, tl, hs, hv, hl⟩
+  · rw [h]; simp
+  · have hne := valid_ne_nil hv
+    have : (s0 :: rest).length = p.length + tl.length := by rw [hs]; simp
+    simp at this
+    rw [hl]
+    cases p with
+    | nil => exact absurd rfl hne
+    | cons a p' => simp at this ⊢; omega
+
+theorem runesF_fuel2 : ∀ (n m : Nat) (s : Bytes), s.length ≤ n → s.length ≤ m →
+    runesF n s = runesF m s := by
+  intro n
+  induction n with
+  | zero => intro m s h _; cases s with
+    | nil => cases m <;> rfl
+    | cons a t => simp at h
+  | succ n ih =>
+    intro m s h hm
+    cases s with
+    | nil => cases m <;> rfl
+    | cons s0 rest =>
+      cases m with
+      | zero => simp at hm
+      | succ m =>
+        have hd := decode_size s0 rest
+        have hlen : ((s0 :: rest).drop (decodeRune (s0 :: rest)).2).length ≤ rest.length := by
+          simp only [List.length_drop, List.length_cons]; omega
+        simp only [runesF]
+        simp only [List.length_cons] at h hm
+        rw [ih m _ (by omega) (by omega)]
+
+theorem runesF_fuel (n : Nat) (s : Bytes) (h : s.length ≤ n) : runesF n s = runesF s.length s :=
+  runesF_fuel2 n s.length s h (Nat.le_refl _)
+
+theorem runes_nil : runes [] = [] := rfl
+
+theorem runes_cons (s0 : UInt8) (rest : Bytes) :
+    runes (s0 :: rest) =
+      ⟨(decodeRune (s0 :: rest)).1, (decodeRune (s0 :: rest)).2,
+        (s0 :: rest).take (decodeRune (s0 :: rest)).2⟩ ::
+        runes ((s0 :: rest).drop (decodeRune (s0 :: rest)).2) := by
+  have hd := decode_size s0 rest
+  have hlen : ((s0 :: rest).drop (decodeRune (s0 :: rest)).2).length ≤ rest.length := by
+    simp only [List.length_drop, List.length_cons]; omega
+  unfold runes
+  simp only [List.length_cons, runesF]
+  rw [runesF_fuel _ _ hlen]
+
+/-- What one decode step yields: an invalid byte, or a valid encoding. -/
+def TokOK (t : Tok) : Prop :=
+  (t.r = runeError ∧ t.size = 1 ∧ ∃ b : UInt8, t.raw = [b] ∧ 0x80 ≤ b.toNat) ∨
+  (ValidEnc t.raw t.r ∧ t.size = t.raw.length)
+
+theorem runes_valid_append {p : Bytes} {r : Nat} (h : ValidEnc p r) (tl : Bytes) :
+    runes (p ++ tl) = ⟨r, p.length, p⟩ :: runes tl := by
+  have hne := valid_ne_nil h
+  cases p with
+  | nil => exact absurd rfl hne
+  | cons a p' =>
+    have hd := decode_valid h tl
+    rw [List.cons_append] at hd ⊢
+    rw [runes_cons, hd]
+    simp
+
+theorem runes_invalid {s0 : UInt8} {rest : Bytes}
+    (h : decodeRune (s0 :: rest) = (runeError, 1)) :
+    runes (s0 :: rest) = ⟨runeError, 1, [s0]⟩ :: runes rest := by
+  rw [runes_cons, h]; simp
+
+/-- The decode loop partitions the string into well-formed steps. -/
+theorem runes_spec : ∀ (n : Nat) (s : Bytes), s.length ≤ n →
+    (∀ t ∈ runes s, TokOK t) ∧ (runes s).flatMap Tok.raw = s := by
+  intro n
+  induction n with
+  | zero => intro s h; cases s with
+    | nil => simp [runes_nil]
+    | cons a t => simp at h
+  | succ n ih =>
+    intro s h
+    cases s with
+    | nil => simp [runes_nil]
+    | cons s0 rest =>
+      rcases decode_cases s0 rest with ⟨hd, hb⟩ | ⟨p, tl, hs, hv, hl⟩
+      · rw [runes_invalid hd]
+        obtain ⟨i1, i2⟩ := ih rest (by simp at h; omega)
+        refine ⟨?_, ?_⟩
+        · intro t ht
+          rcases List.mem_cons.mp ht with rfl | ht
+          · exact Or.inl ⟨rfl, rfl, s0, rfl, hb⟩
+          · exact i1 t ht
+        · simp [i2]
+      · generalize (decodeRune (s0 :: rest)).1 = r at hv
+        have hne := valid_ne_nil hv
+        have hlen : tl.length ≤ n := by
+          have : (s0 :: rest).length = p.length + tl.length := by rw [hs]; simp
+          cases p with
+          | nil => exact absurd rfl hne
+          | cons a p' => simp at this h; omega
+        obtain ⟨i1, i2⟩ := ih tl hlen
+        rw [hs, runes_valid_append hv tl]
+        refine ⟨?_, ?_⟩
+        · intro t ht
+          rcases List.mem_cons.mp ht with rfl | ht
+          · exact Or.inr ⟨hv, rfl⟩
+          · exact i1 t ht
+        · simp [i2]
+
+theorem runes_ok (s : Bytes) : ∀ t ∈ runes s, TokOK t := (runes_spec s.length s (Nat.le_refl _)).1
+theorem runes_join (s : Bytes) : (runes s).flatMap Tok.raw = s :=
+  (runes_spec s.length s (Nat.le_refl _)).2
+
+/-! ## The loops of Quote -/
+
+theorem tok_le_maxRune {t : Tok} (h : TokOK t) : t.r ≤ maxRune := by
+  rcases h with ⟨h, _⟩ | ⟨h, _⟩
+  · rw [h]; decide
+  · exact valid_le_maxRune h
+
+/-- Which arm of the `$'…'` loop body ran, with the conditions that led there. -/
+inductive PieceSpec (l : Lang) (last : Bool) (t : Tok) : Except ErrKind (Bytes × Bool) → Prop
+  | bsq : (t.r = 0x27 ∨ t.r = 0x5c) → PieceSpec l last t (.ok (0x5c :: encodeRune t.r, false))
+  | printable : ¬(t.r = 0x27 ∨ t.r = 0x5c) → isPrint t.r = true → t.r ≠ runeError →
+      PieceSpec l last t (.ok ((if last && isHexRune t.r then [0x27, 0x24, 0x27] else []) ++
+        encodeRune t.r, false))
+  | ctl (c : UInt8) : ¬(isPrint t.r = true ∧ t.r ≠ runeError) → ctlLetter t.r = some c →
+      PieceSpec l last t (.ok ([0x5c, c], false))
+  | hexByte : ¬(t.r = 0x27 ∨ t.r = 0x5c) → ¬(isPrint t.r = true ∧ t.r ≠ runeError) →
+      ctlLetter t.r = none → (t.r < 0x80 ∨ (t.r = runeError ∧ t.size = 1)) →
+      PieceSpec l last t (.ok ([0x5c, 0x78] ++ hex2 (t.raw.headD 0).toNat, langIn l langMksh))
+  | range : t.r > maxRune → PieceSpec l last t (.error .range)
+  | mksh : ¬(isPrint t.r = true ∧ t.r ≠ runeError) → langIn l langMksh = true → t.r > 0xFFFD →
+      PieceSpec l last t (.error .mksh)
+  | u4 : ¬(isPrint t.r = true ∧ t.r ≠ runeError) → ¬(t.r < 0x80 ∨ (t.r = runeError ∧ t.size = 1)) →
+      ¬(langIn l langMksh = true ∧ t.r > 0xFFFD) → t.r < 0x10000 →
+      PieceSpec l last t (.ok ([0x5c, 0x75] ++ hex4 t.r, false))
+  | u8 : ¬(isPrint t.r = true ∧ t.r ≠ runeError) → ¬ t.r > maxRune →
+      ¬(langIn l langMksh = true ∧ t.r > 0xFFFD) → ¬ t.r < 0x10000 →
+      PieceSpec l last t (.ok ([0x5c, 0x55] ++ hex8 t.r, false))
+
+theorem piece_spec (l : Lang) (last : Bool) (t : Tok) : PieceSpec l last t (piece l last t) := by
+  unfold piece
+  split
+  · exact .bsq ‹_›
+  · split
+    · rename_i h; exact .printable ‹_› h.1 h.2
+    · split
+      · exact .ctl _ ‹_› ‹_›
+      · split
+        · exact .hexByte ‹_› ‹_› ‹_› ‹_›
+        · split
+          · exact .range ‹_›
+          · split
+            · rename_i h; exact .mksh ‹_› h.1 h.2
+            · split
+              · exact .u4 ‹_› ‹_› ‹_› ‹_›
+              · exact .u8 ‹_› ‹_› ‹_› ‹_›
+
+theorem piece_error_iff (l : Lang) (last : Bool) (t : Tok) (k : ErrKind) (h : TokOK t) :
+    piece l last t = .error k ↔
+      (k = .mksh ∧ langIn l langMksh = true ∧ t.r > 0xFFFD ∧ isPrint t.r = false) := by
+  have hm := tok_le_maxRune h
+  have hs := piece_spec l last t
+  generalize piece l last t = res at hs
+  cases hs with
+  | bsq c => constructor
+             · intro e; cases e
+             · rintro ⟨_, _, h3, _⟩; omega
+  | printable c1 c2 c3 => constructor
+                          · intro e; cases e
+                          · rintro ⟨_, _, _, h4⟩; rw [c2] at h4; cases h4
+  | ctl c c1 c2 => constructor
+                   · intro e; cases e
+                   · rintro ⟨_, _, h3, _⟩
+                     unfold ctlLetter at c2
+                     repeat' (split at c2)
+                     all_goals first | omega | cases c2
+  | hexByte c1 c2 c3 c4 => constructor
+                           · intro e; cases e
+                           · rintro ⟨_, _, h3, _⟩; unfold runeError at c4; omega
+  | range c => omega
+  | mksh c1 c2 c3 =>
+    constructor
+    · intro e; cases e
+      refine ⟨rfl, c2, c3, ?_⟩
+      have : t.r ≠ runeError := by unfold runeError; omega
+      cases hq : isPrint t.r
+      · rfl
+      · exact absurd ⟨hq, this⟩ c1
+    · rintro ⟨rfl, _⟩; rfl
+  | u4 c1 c2 c3 c4 => constructor
+                      · intro e; cases e
+                      · rintro ⟨_, h2, h3, _⟩; exact absurd ⟨h2, h3⟩ c3
+  | u8 c1 c2 c3 c4 => constructor
+                      · intro e; cases e
+                      · rintro ⟨_, h2, h3, _⟩; exact absurd ⟨h2, h3⟩ c3
+
+theorem scan_ok (l : Lang) : ∀ (ts : List Tok) (offs : Nat) (sc np sc' np' : Bool),
+    scan l ts offs sc np = .ok (sc', np') →
+    (∀ t ∈ ts, t.r ≠ 0 ∧ (langIn l langPOSIX = true → nonPrint t.r = false)) ∧
+    sc' = (sc || ts.any fun t => isShellChar t.r) ∧
+    np' = (np || ts.any fun t => nonPrint t.r) := by
+  intro ts
+  induction ts with
+  | nil => intro offs sc np sc' np' h; simp only [scan] at h; cases h; simp
+  | cons t ts ih =>
+    intro offs sc np sc' np' h
+    by_cases c0 : t.r = 0
+    · simp only [scan, c0, ↓reduceIte] at h; cases h
+    by_cases c1 : nonPrint t.r = true
+    · by_cases c2 : langIn l langPOSIX = true
+      · simp only [scan, c0, c1, c2, ↓reduceIte] at h; cases h
+      · simp only [scan, c0, c1, c2, ↓reduceIte] at h
+        obtain ⟨i1, i2, i3⟩ := ih _ _ _ _ _ h
+        refine ⟨?_, ?_, ?_⟩
+        · intro t' ht'
+          rcases List.mem_cons.mp ht' with rfl | ht'
+          · exact ⟨c0, fun hp => absurd hp c2⟩
+          · exact i1 t' ht'
+        · rw [i2]; simp [Bool.or_assoc]
+        · rw [i3]; simp [c1]
+    · simp only [scan, c0, c1, ↓reduceIte] at h
+      obtain ⟨i1, i2, i3⟩ := ih _ _ _ _ _ h
+      refine ⟨?_, ?_, ?_⟩
+      · intro t' ht'
+        rcases List.mem_cons.mp ht' with rfl | ht'
+        · exact ⟨c0, fun _ => by simpa using c1⟩
+        · exact i1 t' ht'
+      · rw [i2]; simp [Bool.or_assoc]
+      · rw [i3]; have : nonPrint t.r = false := by simpa using c1
+        simp [this]
+
+theorem scan_error (l : Lang) : ∀ (ts : List Tok) (offs : Nat) (sc np : Bool) (e : QErr),
+    scan l ts offs sc np = .error e →
+    (e.kind = .null ∧ ∃ t ∈ ts, t.r = 0) ∨
+    (e.kind = .posix ∧ langIn l langPOSIX = true ∧ ∃ t ∈ ts, nonPrint t.r = true) := by
+  intro ts
+  induction ts with
+  | nil => intro offs sc np e h; simp only [scan] at h; cases h
+  | cons t ts ih =>
+    intro offs sc np e h
+    by_cases c0 : t.r = 0
+    · simp only [scan, c0, ↓reduceIte] at h; cases h
+      exact Or.inl ⟨rfl, t, List.mem_cons_self .., c0⟩
+    have lift : ((e.kind = .null ∧ ∃ t ∈ ts, t.r = 0) ∨
+        (e.kind = .posix ∧ langIn l langPOSIX = true ∧ ∃ t ∈ ts, nonPrint t.r = true)) →
+        ((e.kind = .null ∧ ∃ t' ∈ t :: ts, t'.r = 0) ∨
+        (e.kind = .posix ∧ langIn l langPOSIX = true ∧ ∃ t' ∈ t :: ts, nonPrint t'.r = true)) := by
+      rintro (⟨a, t', m, b⟩ | ⟨a, a', t', m, b⟩)
+      · exact Or.inl ⟨a, t', List.mem_cons_of_mem _ m, b⟩
+      · exact Or.inr ⟨a, a', t', List.mem_cons_of_mem _ m, b⟩
+    by_cases c1 : nonPrint t.r = true
+    · by_cases c2 : langIn l langPOSIX = true
+      · simp only [scan, c0, c1, c2, ↓reduceIte] at h; cases h
+        exact Or.inr ⟨rfl, c2, t, List.mem_cons_self .., c1⟩
+      · simp only [scan, c0, c1, c2, ↓reduceIte] at h
+        exact lift (ih _ _ _ _ h)
+    · simp only [scan, c0, c1, ↓reduceIte] at h
+      exact lift (ih _ _ _ _ h)
+
+/-- A failing first loop ⇔ some rune is NUL, or (POSIX) non-printable. -/
+theorem scan_error_iff (l : Lang) (ts : List Tok) (offs : Nat) (sc np : Bool) :
+    (∃ e, scan l ts offs sc np = .error e) ↔
+      ∃ t ∈ ts, t.r = 0 ∨ (langIn l langPOSIX = true ∧ nonPrint t.r = true) := by
+  constructor
+  · rintro ⟨e, h⟩
+    rcases scan_error l ts offs sc np e h with ⟨_, t, m, b⟩ | ⟨_, a, t, m, b⟩
+    · exact ⟨t, m, Or.inl b⟩
+    · exact ⟨t, m, Or.inr ⟨a, b⟩⟩
+  · rintro ⟨t, m, ht⟩
+    cases hres : scan l ts offs sc np with
+    | error e => exact ⟨e, rfl⟩
+    | ok r =>
+      obtain ⟨sc', np'⟩ := r
+      obtain ⟨i1, _, _⟩ := scan_ok l ts offs sc np sc' np' hres
+      obtain ⟨j1, j2⟩ := i1 t m
+      rcases ht with h0 | ⟨hp, hn⟩
+      · exact absurd h0 j1
+      · rw [j2 hp] at hn; cases hn
+
+theorem dollar_error (l : Lang) : ∀ (ts : List Tok) (offs : Nat) (last : Bool) (e : QErr),
+    (∀ t ∈ ts, TokOK t) → dollarBody l ts offs last = .error e →
+    e.kind = .mksh ∧ langIn l langMksh = true ∧ ∃ t ∈ ts, t.r > 0xFFFD ∧ isPrint t.r = false := by
+  intro ts
+  induction ts with
+  | nil => intro offs last e _ h; simp only [dollarBody] at h; cases h
+  | cons t ts ih =>
+    intro offs last e hok h
+    simp only [dollarBody] at h
+    cases hp : piece l last t with
+    | error k =>
+      rw [hp] at h; simp only at h; cases h
+      obtain ⟨rfl, a, b, c⟩ := (piece_error_iff l last t k (hok t (List.mem_cons_self ..))).mp hp
+      exact ⟨rfl, a, t, List.mem_cons_self .., b, c⟩
+    | ok r =>
+      obtain ⟨p, nxt⟩ := r
+      rw [hp] at h; simp only at h
+      cases hd : dollarBody l ts (offs + t.size) nxt with
+      | error e' =>
+        rw [hd] at h; simp only at h; cases h
+        obtain ⟨a, b, t', m, c⟩ := ih _ _ _ (fun t' m => hok t' (List.mem_cons_of_mem _ m)) hd
+        exact ⟨a, b, t', List.mem_cons_of_mem _ m, c⟩
+      | ok rest => rw [hd] at h; simp only at h; cases h
+
+theorem dollar_ok (l : Lang) : ∀ (ts : List Tok) (offs : Nat) (last : Bool) (body : Bytes),
+    (∀ t ∈ ts, TokOK t) → dollarBody l ts offs last = .ok body →
+    ∀ t ∈ ts, ¬(langIn l langMksh = true ∧ t.r > 0xFFFD ∧ isPrint t.r = false) := by
+  intro ts
+  induction ts with
+  | nil => intro offs last body _ _ t m; cases m
+  | cons t ts ih =>
+    intro offs last body hok h
+    simp only [dollarBody] at h
+    cases hp : piece l last t with
+    | error k => rw [hp] at h; simp only at h; cases h
+    | ok r =>
+      obtain ⟨p, nxt⟩ := r
+      rw [hp] at h; simp only at h
+      cases hd : dollarBody l ts (offs + t.size) nxt with
+      | error e' => rw [hd] at h; simp only at h; cases h
+      | ok rest =>
+        intro t' m
+        rcases List.mem_cons.mp m with rfl | m
+        · intro ⟨a, b, c⟩
+          have := (piece_error_iff l last t' .mksh (hok t' (List.mem_cons_self ..))).mpr ⟨rfl, a, b, c⟩
+          rw [hp] at this; cases this
+        · exact ih _ _ _ (fun t' m => hok t' (List.mem_cons_of_mem _ m)) hd t' m
+
+theorem tok_zero_iff {t : Tok} (h : TokOK t) : t.r = 0 ↔ (0 : UInt8) ∈ t.raw := by
+  rcases h with ⟨h1, _, b, h3, h4⟩ | ⟨hv, _⟩
+  · rw [h1, h3]
+    constructor
+    · intro e; cases e
+    · intro m; simp at m; subst m; simp at h4
+  · by_cases hr : t.r < 0x80
+    · obtain ⟨b, hb, hbr⟩ := valid_ascii hv hr
+      rw [hb]
+      constructor
+      · intro e; rw [e] at hbr
+        have : b = 0 := by apply UInt8.toNat_inj.mp; simpa using hbr
+        simp [this]
+      · intro m; simp at m; subst m; simpa using hbr.symm
+    · constructor
+      · intro e; omega
+      · intro m; have := valid_high hv (by omega) 0 m; simp at this
+
+theorem contains_zero_iff (s : Bytes) : s.contains 0 = true ↔ ∃ t ∈ runes s, t.r = 0 := by
+  have hj := runes_join s
+  have hok := runes_ok s
+  rw [List.contains_iff_mem]
+  constructor
+  · intro m
+    rw [← hj] at m
+    obtain ⟨t, mt, m0⟩ := List.mem_flatMap.mp m
+    exact ⟨t, mt, (tok_zero_iff (hok t mt)).mpr m0⟩
+  · rintro ⟨t, mt, h0⟩
+    rw [← hj]
+    exact List.mem_flatMap.mpr ⟨t, mt, (tok_zero_iff (hok t mt)).mp h0⟩
+
+/-- Quote fails exactly on the strings described by `codeFails`. -/
+theorem quote_fails_iff_codeFails (l : Lang) (s : Bytes) :
+    (∃ e, quote l s = .error e) ↔ codeFails l s = true := by
+  have hok := runes_ok s
+  have hz := contains_zero_iff s
+  simp only [codeFails, Bool.or_eq_true, Bool.and_eq_true, List.any_eq_true, decide_eq_true_eq,
+    Bool.not_eq_true', gt_iff_lt]
+  by_cases hs : s = []
+  · subst hs; simp [quote, runes_nil]
+  unfold quote
+  simp only [hs, ↓reduceIte]
+  cases hsc : scan l (runes s) 0 false false with
+  | error e =>
+    simp only
+    constructor
+    · intro _
+      rcases scan_error l _ _ _ _ e hsc with ⟨_, t, m, b⟩ | ⟨_, a, t, m, b⟩
+      · exact Or.inl (Or.inl (hz.mpr ⟨t, m, b⟩))
+      · exact Or.inl (Or.inr ⟨a, t, m, b⟩)
+    · intro _; exact ⟨e, rfl⟩
+  | ok r =>
+    obtain ⟨sc, np⟩ := r
+    obtain ⟨i1, i2, i3⟩ := scan_ok l _ _ _ _ _ _ hsc
+    simp only [Bool.false_or] at i2 i3
+    have nz : ¬ (s.contains 0 = true) := by
+      rw [hz]; rintro ⟨t, m, h0⟩; exact (i1 t m).1 h0
+    have nposix : ¬ (langIn l langPOSIX = true ∧ ∃ x ∈ runes s, nonPrint x.r = true) := by
+      rintro ⟨a, t, m, b⟩; rw [(i1 t m).2 a] at b; cases b
+    have npany : np = false → ¬ ∃ x ∈ runes s, 0xFFFD < x.r ∧ isPrint x.r = false := by
+      intro hnp
+      rintro ⟨t, m, a, b⟩
+      have : nonPrint t.r = true := by simp [nonPrint, b]
+      have : (runes s).any (fun t => nonPrint t.r) = true := List.any_eq_true.mpr ⟨t, m, this⟩
+      rw [← i3, hnp] at this; cases this
+    simp only
+    by_cases hb : (!sc && !np && !isKeyword s) = true
+    · simp only [hb, ↓reduceIte]
+      have hnp : np = false := by
+        cases np
+        · rfl
+        · simp at hb
+      constructor
+      · rintro ⟨e, h⟩; cases h
+      · rintro ((h | h) | ⟨_, h⟩)
+        · exact absurd h nz
+        · exact absurd h nposix
+        · exact absurd h (npany hnp)
+    · simp only [hb, Bool.false_eq_true, ↓reduceIte]
+      cases hnp : np with
+      | true =>
+        simp only [↓reduceIte]
+        cases hd : dollarBody l (runes s) 0 false with
+        | error e =>
+          simp only
+          obtain ⟨_, a, t, m, b, c⟩ := dollar_error l _ _ _ e hok hd
+          exact ⟨fun _ => Or.inr ⟨a, t, m, b, c⟩, fun _ => ⟨e, rfl⟩⟩
+        | ok body =>
+          simp only
+          have := dollar_ok l _ _ _ body hok hd
+          constructor
+          · rintro ⟨e, h⟩; cases h
+          · rintro ((h | h) | ⟨a, t, m, b, c⟩)
+            · exact absurd h nz
+            · exact absurd h nposix
+            · exact absurd ⟨a, b, c⟩ (this t m)
+      | false =>
+        simp only [Bool.false_eq_true, ↓reduceIte]
+        constructor
+        · intro ⟨e, h⟩; split at h <;> cases h
+        · rintro ((h | h) | ⟨_, h⟩)
+          · exact absurd h nz
+          · exact absurd h nposix
+          · exact absurd h (npany hnp)
+
+/-! ## Facts about single bytes, by enumeration -/
+
+theorem byte_forall {P : UInt8 → Prop} (h : ∀ n : Fin 256, P (UInt8.ofNat n.val)) (b : UInt8) :
+    P b := by
+  have := h ⟨b.toNat, toNat_lt b⟩
+  simpa [ofNat_toNat] using this
+
+theorem isPrint_ascii : ∀ r : Fin 128, isPrint r.val = (decide (0x20 ≤ r.val) && decide (r.val ≤ 0x7e)) := by
+  decide +kernel
+
+theorem isPrint_ascii' {r : Nat} (h : r < 0x80) (hp : isPrint r = true) : 0x20 ≤ r ∧ r ≤ 0x7e := by
+  have := isPrint_ascii ⟨r, h⟩
+  simp only [hp] at this
+  simpa using this.symm
+
+theorem bare_of_high : ∀ b : UInt8, 0x80 ≤ b.toNat → isBareByte b = true := by
+  apply byte_forall; decide +kernel
+
+theorem bare_of_ascii : ∀ b : UInt8, 0x20 ≤ b.toNat → b.toNat ≤ 0x7e → isShellChar b.toNat = false →
+    isBareByte b = true ∧ b ≠ 0x23 ∧ b ≠ 0x7e ∧ b ≠ 0x20 ∧ b ≠ 0x09 ∧ b ≠ 0x27 ∧ b ≠ 0x22 ∧ b ≠ 0x24 := by
+  apply byte_forall; decide +kernel
+
 
 end ShVerif.C13
